@@ -40,19 +40,28 @@ def payload_variants(ty, lin):
     return None
 
 
+def _is_lin(t, lin):
+    t = t.strip()
+    if t == lin:
+        return True
+    # Box<dyn Trait> / Box<(dyn Trait + 'static)>
+    return bool(re.match(r"^std::boxed::Box<\(?(dyn )?%s( \+ [^>]*)?\)?>$" % re.escape(lin.replace("dyn ", "")), t)) or \
+        bool(re.match(r"^std::boxed::Box<\(?%s( \+ [^>]*)?\)?>$" % re.escape(lin), t))
+
+
 def owns_linear(ty, lin):
-    if lin not in ty:
+    """the local holds the linear value itself, or an Option/Result/tuple directly around it"""
+    if lin not in ty or ty.startswith("&") or ty.startswith("*"):
         return False
-    if ty.startswith("&") or ty.startswith("*"):
-        return False
-    head, _ = _split_generics(ty)
-    # containers own their elements but consuming them is the container's business
-    if re.search(r"(Vec|VecDeque|HashMap|Box<\[|RefCell|Mutex|Arc|Rc)$", head):
-        return False
-    return True
+    if _is_lin(ty, lin):
+        return True
+    head, args = _split_generics(ty)
+    if head.endswith("option::Option") or head.endswith("result::Result"):
+        return any(_is_lin(a, lin) for a in args)
+    return False
 
 
-def linear(ctx, fn, lin, rule="R-LINEAR"):
+def linear(ctx, fn, lin, rule="R-LINEAR", follow=False):
     n = 0
     for l, ty in enumerate(fn.locals):
         if l == 0 or not owns_linear(ty, lin):
@@ -63,7 +72,7 @@ def linear(ctx, fn, lin, rule="R-LINEAR"):
         pv = payload_variants(ty, lin)
         for loc, kind, c in defs:
             n += 1
-            lost = _lost_path(fn, l, loc, pv)
+            lost = _lost_path(fn, l, (loc[0], len(fn.stmts(loc[0]))), pv, lin if follow else None)
             ok = lost is None
             ctx.obligation(rule, fn.id, "%s from %s" % (fn.local_name(l), c["f"].rsplit("::", 1)[-1]), ok,
                            sample={"fn": fn.id, "value": fn.local_name(l), "type": ty[:80],
@@ -76,12 +85,15 @@ def linear(ctx, fn, lin, rule="R-LINEAR"):
     return n
 
 
-def _lost_path(fn, l, defloc, pv):
+def _lost_path(fn, l, defloc, pv, lin=None, depth=0):
     """walk forward from the def while the value is still owned; returns a description of the
-    first place where ownership ends without a move, else None"""
+    first place where ownership ends without a move, else None. A move into another bare local
+    that itself holds the linear value (`let Some(task) = popped`) transfers the obligation."""
     b0, i0 = defloc
-    t0 = fn.term(b0)
-    start = [(s, 0) for s in fn.succ(b0)]
+    if fn.term(b0)[0] == "call" and i0 >= len(fn.stmts(b0)):
+        start = [(s, 0) for s in fn.succ(b0)]
+    else:
+        start = [(b0, i0 + 1)]
     seen = set()
     work = list(start)
     while work:
@@ -97,10 +109,16 @@ def _lost_path(fn, l, defloc, pv):
             if s[0] == "sd" and s[1] == l:
                 return "StorageDead in bb%d" % b
             if s[0] == "a":
-                for o in rv_operands(s[2]):
-                    if o[0] == "m" and o[1][0] == l:
-                        consumed = True
-                if s[1] == [l]:
+                moved = any(o[0] == "m" and o[1][0] == l for o in rv_operands(s[2]))
+                if moved:
+                    consumed = True
+                    x = s[1][0] if len(s[1]) == 1 else None
+                    if lin is not None and x not in (None, 0, l) and depth < 6 and owns_linear(fn.ty(x), lin) \
+                            and s[2][0] in ("use", "agg"):
+                        sub = _lost_path(fn, x, (b, j), payload_variants(fn.ty(x), lin), lin, depth + 1)
+                        if sub is not None:
+                            return "%s (moved into %s)" % (sub, fn.local_name(x))
+                elif s[1] == [l]:
                     consumed = True       # overwritten (a new value)
             if consumed:
                 break
@@ -134,6 +152,37 @@ def _lost_path(fn, l, defloc, pv):
         for s in fn.succ(b):
             work.append((s, 0))
     return None
+
+
+def refusing_sinks(ctx, fx, file, lin, rule="R-SINK"):
+    """a crate-local function that takes the linear value by value and returns a Result can refuse it
+    (and then the value is gone); every call must examine that Result"""
+    n = 0
+    for fid in fx.fn_ids(file):
+        if "::tests::" in fid:
+            continue
+        for k in range(fx.count(fid)):
+            fn = Fn(fx.raw(fid, k))
+            for b, c in fn.calls():
+                if not c["loc"] or len(c["d"]) != 1:
+                    continue
+                d = c["d"][0]
+                if not fn.ty(d).startswith("std::result::Result<"):
+                    continue
+                if not any(o[0] == "m" and len(o[1]) == 1 and _is_lin(fn.ty(o[1][0]), lin) for o in c["a"]):
+                    continue
+                n += 1
+                ctx.analysed_fns.add(fid)
+                used = bool(fn.reads(d)) or d == 0
+                ctx.obligation(rule, fid, "%s result examined" % c["f"].rsplit("::", 1)[-1], used,
+                               sample={"fn": fid, "sink": c["f"].rsplit("::", 1)[-1], "line": c["ln"], "result_examined": used})
+                if not used:
+                    ctx.violation(rule, fid, "Result of %s discarded" % c["f"].rsplit("::", 1)[-1],
+                                  "%s takes the %s by value and can refuse it (returns Err and drops it); the Result is "
+                                  "discarded here (line %d), so a refused value vanishes without anyone being told"
+                                  % (c["f"].rsplit("::", 1)[-1], lin.rsplit("::", 1)[-1], c["ln"]), fn.file, c["ln"])
+    ctx.instance(rule + ".calls", n)
+    return n
 
 
 # ------------------------------------------------------------------ R-ARENA
